@@ -324,6 +324,8 @@ def bb_ladder(bbox, case, rep, rng):
     import numpy as np
     if case.solver == "ProxNewton" and case.pen.kind in ("mcp", "wmcp", "scad", "l05", "l23", "logsum"):
         return      # Hessian-based steps 1/L_j are not confined to the penalty's well-posed range
+    if case.label == "pn-saturated":
+        return      # saturated sigmoid: descent is decided by rounding (not modelled)
     inner = {"ProxNewton": "max_pn_iter", "GroupProxNewton": "max_pn_iter", "GroupBCD": "max_epochs",
              "MultiTaskBCD": "max_epochs"}.get(case.solver)
     w0 = None
